@@ -697,6 +697,10 @@ class AssocDict:
         return v if found else default
 
     def __len__(self):
+        if not self.entries:
+            return 0
+        if len(self.entries) == 1 and self.entries[0][1] is not AssocDict.DELETED:
+            return 1
         raise Unsupported("len of a dict with symbolic keys")
 
 
